@@ -2,10 +2,15 @@
 //! verify_repair_postcondition_locally runs all four flip-predicate verifiers.
 use super::*;
 use crate::geometry::kernel::FastKernel;
-use core::sync::atomic::{AtomicBool, AtomicU64, Ordering as AOrd};
+use core::sync::atomic::{AtomicBool, Ordering as AOrd};
 
 // write-only ghost state: one "called" flag and one verdict bit per callee
-static FAILS: AtomicU64 = AtomicU64::new(0);
+static F_SEED: AtomicBool = AtomicBool::new(false);
+static F_K2: AtomicBool = AtomicBool::new(false);
+static F_K3: AtomicBool = AtomicBool::new(false);
+static F_IK2: AtomicBool = AtomicBool::new(false);
+static F_IK3: AtomicBool = AtomicBool::new(false);
+static F_CONN: AtomicBool = AtomicBool::new(false);
 static C_SEED: AtomicBool = AtomicBool::new(false);
 static C_K2: AtomicBool = AtomicBool::new(false);
 static C_K3: AtomicBool = AtomicBool::new(false);
@@ -13,31 +18,30 @@ static C_IK2: AtomicBool = AtomicBool::new(false);
 static C_IK3: AtomicBool = AtomicBool::new(false);
 static C_CONN: AtomicBool = AtomicBool::new(false);
 
-fn fails(bit: u64) -> bool { (FAILS.load(AOrd::Relaxed) >> bit) & 1 == 1 }
 fn rerr(code: usize) -> DelaunayRepairError { DelaunayRepairError::Flip(FlipError::UnsupportedDimension { dimension: code }) }
 
 fn stub_seed<T, U, V, const D: usize>(_t: &Tds<T, U, V, D>, _s: Option<&[CellKey]>, _q: &mut RepairQueues, _st: &mut DelaunayRepairStats) -> Result<(), FlipError>
 where T: CoordinateScalar, U: DataType, V: DataType {
     C_SEED.store(true, AOrd::Relaxed);
-    if fails(0) { Err(FlipError::UnsupportedDimension { dimension: 100 }) } else { Ok(()) }
+    if kani::any() { F_SEED.store(true, AOrd::Relaxed); Err(FlipError::UnsupportedDimension { dimension: 100 }) } else { Ok(()) }
 }
 macro_rules! verifier_stub {
-    ($name:ident, $qty:ty, $flag:ident, $bit:expr) => {
+    ($name:ident, $qty:ty, $flag:ident, $fail:ident, $bit:expr) => {
         fn $name<K, U, V, const D: usize>(_t: &Tds<K::Scalar, U, V, D>, _k: &K, _q: &mut VecDeque<($qty, u64)>, _c: &RepairAttemptConfig, _d: &mut RepairDiagnostics) -> Result<(), DelaunayRepairError>
         where K: Kernel<D>, K::Scalar: ScalarSummable, U: DataType, V: DataType {
             $flag.store(true, AOrd::Relaxed);
-            if fails($bit) { Err(rerr(100 + $bit)) } else { Ok(()) }
+            if kani::any() { $fail.store(true, AOrd::Relaxed); Err(rerr(100 + $bit)) } else { Ok(()) }
         }
     };
 }
-verifier_stub!(stub_k2, FacetHandle, C_K2, 1);
-verifier_stub!(stub_k3, RidgeHandle, C_K3, 2);
-verifier_stub!(stub_ik2, EdgeKey, C_IK2, 3);
-verifier_stub!(stub_ik3, TriangleHandle, C_IK3, 4);
+verifier_stub!(stub_k2, FacetHandle, C_K2, F_K2, 1);
+verifier_stub!(stub_k3, RidgeHandle, C_K3, F_K3, 2);
+verifier_stub!(stub_ik2, EdgeKey, C_IK2, F_IK2, 3);
+verifier_stub!(stub_ik3, TriangleHandle, C_IK3, F_IK3, 4);
 fn stub_connected<T, U, V, const D: usize>(_t: &Tds<T, U, V, D>) -> bool
 where U: DataType, V: DataType {
     C_CONN.store(true, AOrd::Relaxed);
-    !fails(5)
+    if kani::any() { F_CONN.store(true, AOrd::Relaxed); false } else { true }
 }
 fn stub_trace() -> bool { false }
 fn stub_format(_a: core::fmt::Arguments<'_>) -> String { String::with_capacity(1) }
@@ -55,8 +59,12 @@ fn stub_format(_a: core::fmt::Arguments<'_>) -> String { String::with_capacity(1
 fn local_postcondition_contract() {
     let tds: Tds<f64, (), (), 3> = Tds::empty();
     let kernel = FastKernel::<f64>::new();
-    let f: u64 = kani::any();
-    FAILS.store(f, AOrd::Relaxed);
+    F_SEED.store(false, AOrd::Relaxed);
+    F_K2.store(false, AOrd::Relaxed);
+    F_K3.store(false, AOrd::Relaxed);
+    F_IK2.store(false, AOrd::Relaxed);
+    F_IK3.store(false, AOrd::Relaxed);
+    F_CONN.store(false, AOrd::Relaxed);
     C_SEED.store(false, AOrd::Relaxed);
     C_K2.store(false, AOrd::Relaxed);
     C_K3.store(false, AOrd::Relaxed);
@@ -64,14 +72,16 @@ fn local_postcondition_contract() {
     C_IK3.store(false, AOrd::Relaxed);
     C_CONN.store(false, AOrd::Relaxed);
     let r = verify_repair_postcondition_locally(&tds, &kernel, None);
-    let all_pass = (f & 0b11_1111) == 0;
+    let any_failed = F_SEED.load(AOrd::Relaxed) || F_K2.load(AOrd::Relaxed) || F_K3.load(AOrd::Relaxed) || F_IK2.load(AOrd::Relaxed) || F_IK3.load(AOrd::Relaxed) || F_CONN.load(AOrd::Relaxed);
+    let all_pass = !any_failed;
     assert!(r.is_ok() == all_pass, "OBL conjunction: the Delaunay verdict is Ok exactly when queue seeding, the k=2 facet check, the k=3 ridge check, both inverse checks and the connectivity check all pass");
     if all_pass {
         assert!(C_SEED.load(AOrd::Relaxed) && C_K2.load(AOrd::Relaxed) && C_K3.load(AOrd::Relaxed) && C_IK2.load(AOrd::Relaxed) && C_IK3.load(AOrd::Relaxed) && C_CONN.load(AOrd::Relaxed),
             "OBL all-consulted: an accepting verdict consulted every flip-predicate verifier");
     }
     kani::cover!(r.is_ok(), "COV accepted");
-    kani::cover!(r.is_err() && (f & 0b1_1111) == 0, "COV only connectivity fails");
+    kani::cover!(r.is_err() && F_CONN.load(AOrd::Relaxed), "COV only connectivity fails");
+    kani::cover!(r.is_err() && F_IK3.load(AOrd::Relaxed), "COV the last verifier fails");
     core::mem::forget(r);
     core::mem::forget(tds);
 }
